@@ -339,12 +339,17 @@ func Run(f interface{}, n int, x Vector, args ...interface{}) (Vector, int64, er
   if proxop.Value != nil && jitUpdate.Value != nil {
     return x, seed.Value, fmt.Errorf("invalid arguments")
   }
-  // rescale lambda
+  // rescale lambda for the time of this run (the operator may belong to the
+  // caller)
   if proxop.Value != nil {
-    proxop.Value.SetLambda(gamma.Value*proxop.Value.GetLambda()/float64(n))
+    lambda := proxop.Value.GetLambda()
+    proxop.Value.SetLambda(gamma.Value*lambda/float64(n))
+    defer proxop.Value.SetLambda(lambda)
   }
   if jitUpdate.Value != nil {
-    jitUpdate.Value.SetLambda(gamma.Value*jitUpdate.Value.GetLambda()/float64(n))
+    lambda := jitUpdate.Value.GetLambda()
+    jitUpdate.Value.SetLambda(gamma.Value*lambda/float64(n))
+    defer jitUpdate.Value.SetLambda(lambda)
   }
   if jitUpdate.Value != nil {
     switch g := f.(type) {
